@@ -234,6 +234,59 @@ def concrete_image(w):
         w.goal("served")
 
 
+def block_sequence(nreq):
+    """(ii') any order, any number of times, any scheduled node: a sequence of block requests
+    with symbolic indices on a concrete 3-page image; every one is answered with its block."""
+    def fn(w):
+        import binascii
+        import struct
+        env = C.make_env(w)
+        image = bytes((i * 11 + 5) % 256 for i in range(300))
+        padded = image + bytes([255]) * (384 - 300)
+        with env.installed():
+            g = C.make_gateway(w, "2.2")
+            ids = C.gen_network(w, g, ["bare", "bare"])
+            ft = w.fresh_int("fw_type", 0, 65535)
+            fv = w.fresh_int("fw_version", 0, 65535)
+            ota = g.gw.tasks.ota
+            w.call(ota.make_update, [ids[0], ids[1]], ft, fv, image)
+            w.info = {"requests": []}
+            for n in (ids[0], ids[1]):
+                C.step_line(w, g, C.structured_line(w, [n, 255, 4, 0, 0],
+                                                    "0100010000000000beef"))
+            del g.conn.written[:]
+            for r in range(nreq):
+                node = w.pick([ids[0], ids[1]], f"node{r}")
+                blk = w.fresh_int(f"block{r}", 0, 23)
+                w.info["requests"].append([node, blk])
+                if w.symbolic:
+                    payload = hex_words(w, [ft, fv, blk])
+                else:
+                    payload = binascii.hexlify(struct.pack("<3H", ft, fv, blk)).decode()
+                try:
+                    C.step_line(w, g, C.structured_line(w, [node, 255, 4, 0, 2], payload))
+                except Exception as exc:
+                    w.escaped(exc, "block request raised")
+                out = C.emissions(g)
+                w.check(len(out) == r + 1, f"request {r + 1} of a sequence got no block response "
+                                           "(order / repetition of requests must not matter)")
+                if w.symbolic:
+                    words, block = parse_stream(w, out[-1], node, 3, 3, tail=16)
+                    w.check(w.and_(w.eq(words[0], ft), w.eq(words[1], fv), w.eq(words[2], blk)),
+                            "block response does not echo type, version and index")
+                    b = C.model_int(w, blk)  # the slice model pinned the index on this path
+                    w.check(w.eq(blk, b), "block index not determined on this path")
+                    for k in range(16):
+                        w.check(w.eq(block[k], padded[16 * b + k]), "block byte differs")
+                else:
+                    raw = binascii.unhexlify(out[-1].strip().split(";")[5])
+                    w.check(struct.unpack("<3H", raw[:6]) == (ft, fv, blk),
+                            "block response does not echo type, version and index")
+                    w.check(raw[6:] == padded[16 * blk:16 * blk + 16], "block byte differs")
+            w.goal("sequence")
+    return fn
+
+
 # ------------------------------------------------------------------------------------------------
 def crc_kernel():
     """(iii-a/b/c) the CRC object compute_crc builds is CRC-16/MODBUS, and its table-driven update
@@ -306,6 +359,11 @@ def build(tier):
                  "pad_loop": "forks on length mod 128 (128 residues)"},
                 goals=["served"], timeout_ms=60000,
                 doc="prepare_fw / respond_fw_config / respond_fw on a symbolic-length image"),
+        Harness("block-sequence", block_sequence(2 if tier == "quick" else 3),
+                {"image": "300 bytes (24 blocks after padding)", "requests": 2 if tier == "quick"
+                 else 3, "indices": "symbolic 0..23", "nodes": "either scheduled node"},
+                goals=["sequence"],
+                doc="a sequence of block requests in any order / with repetition is fully served"),
         Harness("crc-kernel", crc_kernel(), {"state": "any 16-bit", "byte": "any"},
                 goals=["table-step", "glue"], timeout_ms=60000,
                 doc="CRC-16/MODBUS: parameters, inductive table step (bit-vectors), hexdigest glue"),
